@@ -26,3 +26,30 @@ uint32_t read_32bit(const uint8_t* p) {{bits_read_32bit}}
 uint8_t* write_32bit(uint8_t* out, uint32_t bits32) {{bits_write_32bit}}
 uint8_t* write_byte(uint8_t* out, uint8_t byte) {{bits_write_byte}}
 '''
+
+
+def _split_args(s):
+    parts, depth, cur = [], 0, []
+    for ch in s:
+        if ch in '([{':
+            depth += 1
+        elif ch in ')]}':
+            depth -= 1
+        if ch == ',' and depth == 0:
+            parts.append(''.join(cur).strip()); cur = []
+        else:
+            cur.append(ch)
+    parts.append(''.join(cur).strip())
+    return parts
+
+
+def _copy_repl(m):
+    a = _split_args(m.group(1))
+    if len(a) != 3:
+        raise ValueError("std::copy with %d arguments" % len(a))
+    return 'bt_copy_u8( %s, (size_t)(( %s ) - ( %s )), %s );' % (a[0], a[1], a[0], a[2])
+
+
+# std::copy( first, last, out ); on byte pointers  ->  bt_copy_u8( first, last - first, out );  (prelude, contract enforced on its own body)
+def COPY_RULE(n):
+    return (r'std::copy\( ((?:[^;])*?) \);', _copy_repl, n)
